@@ -1852,4 +1852,11 @@ theorem wrapper_transparent' (boot : Nat → Bool) (c : Cfg) (hn : 0 < c.n) (s :
 theorem wrapper_oneshot_counterexample' :
     wrapperInput [1, 2, 3] = [1, 2, 3] ∧ wrapperInputStale [1, 2, 3] = [2, 3] := by decide
 
+
+theorem wrapper_guard' {α} (it : List α) : wrapperSkips it = true ↔ it = [] := by
+  cases it <;> simp [wrapperSkips, peekFirst]
+
+theorem wrapper_guard_counterexample' :
+    wrapperSkips [none, some 1, some 2] = false ∧ wrapperSkipsStale [none, some 1, some 2] = true := by decide
+
 end Coba.C08
